@@ -54,6 +54,7 @@ SNIPPETS = [
     "np.abs(np.diff(np.array([[1.0, 5.0], [4.0, 3.0], [0.0, 6.0]]), axis=0))", "np.diff(np.array([[1, 5, 2], [4, 3, 9]]), axis=1)", "_u1()",
     "np.searchsorted(np.array([1, 3, 3, 7]), np.array([0, 3, 4, 9]), side='right')", "np.searchsorted(np.array([1, 3, 3, 7]), 3)",
     "np.zeros(3)[np.array([])]", "np.zeros(3)[np.array([], dtype=int)]", "np.array(sorted(set([]) | set([])))", "np.unique(np.append(np.array([], dtype=int), np.array([], dtype=int)))",
+    "_n1()", "_n2()", "_n3()", "_n4()", "_n5()", "_n6()", "_n7()", "_n8()", "_n9()",
     "np.ceil(3 / 2)", "int(np.ceil(0 / 2))", "np.array([2, 9, 4])[0::2]", "np.array([5, 7, 9])[np.array([True, False, True])] - 2",
     # --- pandas
     "pd.DataFrame({'a': [1, 2, 3], 'b': [1.5, 2.5, 3.5]}).to_dict('records')", "len(pd.DataFrame())", "list(pd.DataFrame().columns)",
@@ -106,6 +107,39 @@ def _p17():
     df = pd.concat([pd.DataFrame({'a': [1.0, 2.0]}), pd.DataFrame({'a': [3.0, 4.0]})], axis=0)
     m = np.array([True, False, False, True])
     return [df.loc[df.index[m]]['a'].tolist(), df[m]['a'].tolist(), list(df.index[m]), df.loc[[1]]['a'].tolist()]
+def _n1():
+    a = np.array([30000, -30000, 100], dtype=np.int16); b = np.array([-30000, 30000, 27], dtype=np.int16)
+    r = a - b
+    return [r.tolist(), str(r.dtype), np.diff(a).tolist(), str(np.diff(a).dtype), (a + b).tolist(), (-a).tolist(), np.abs(np.array([-32768, 5], dtype=np.int16)).tolist()]
+def _n2():
+    u = np.array([0, 1, 65535], dtype=np.uint16)
+    return [(-u).tolist(), str((-u).dtype), (u + 1).tolist(), str((u + 1).dtype), (u - 2).tolist(), (u * 2).tolist(), (u / 2).tolist()]
+def _n3():
+    a = np.array([200, 100], dtype=np.uint8); b = np.array([100, 100], dtype=np.uint8); c = np.array([-100, 100], dtype=np.int8)
+    return [(a + b).tolist(), str((a + b).dtype), (a + c).tolist(), str((a + c).dtype), (a + np.array([100, 100])).tolist(),
+            (a + np.array([100, 200], dtype=np.uint16)).tolist(), str((a + np.array([1, 2], dtype=np.uint16)).dtype), (a > b).tolist(), (a * 2.0).tolist()]
+def _n4():
+    a = np.array([30000, 30000, -5], dtype=np.int16)
+    return [int(a[0] + a[1]), float((a[0] + a[1]) / 2.), int(a[0] - a[2]), int(a[0] + 5), float(a[0]) + float(a[1]), int(a[0]) + int(a[1]), int(-a[2]), int(a[0] * 2)]
+def _n5():
+    a = np.array([30000, 30000, 30000], dtype=np.int16)
+    return [int(np.sum(a)), float(np.mean(a)), np.cumsum(a).tolist(), int(a.sum()), int(np.max(a)), np.append(a, a).tolist(), str(np.append(a, a).dtype),
+            str(np.concatenate([a, np.array([1])]).dtype == np.int16), a[1:].tolist(), str(a[::2].dtype), str(a.copy().dtype), a.astype(float).tolist()]
+def _n6():
+    x = np.array([70000, -70000, 5]).astype(np.int16); z = np.zeros(2, dtype=x.dtype); z[0] = 3.7; z[1] = -3.7
+    return [x.tolist(), z.tolist(), str(z.dtype), str(np.zeros_like(x).dtype), (x.dtype == np.int16), (x.dtype == np.int32), np.asarray(x, dtype=float).tolist()]
+def _n7():
+    s = pd.Series([10, 200, 250]); u = pd.to_numeric(s, downcast='unsigned'); t = pd.to_numeric(pd.Series([100, 65500, 7]), downcast='unsigned')
+    n = pd.to_numeric(pd.Series([-1, 5]), downcast='unsigned'); i = pd.to_numeric(pd.Series([-100, 100]), downcast='integer')
+    return [str(u.dtype), (u + u).tolist(), str((u + u).dtype), (u - 251).tolist(), (u / (u + u)).tolist(), str(t.dtype), (t + t).tolist(), (u + t).tolist(), str((u + t).dtype),
+            (n + n).tolist(), (i + i).tolist(), (u + pd.Series([100, 100, 100])).tolist(), (u * 2).tolist()]
+def _n8():
+    a = np.array([30000, -30000], dtype=np.int16)
+    s = pd.Series(a); df = pd.DataFrame({'v': a}); df['w'] = s
+    return [(s + s).tolist(), str(s.dtype), (df['v'] - df['w'] - df['w']).tolist(), str(df['w'].dtype), (-s).tolist(), (s.values + s.values).tolist()]
+def _n9():
+    a = np.array([1, 2, 3], dtype=np.int16); i = pd.Series([2, 0])
+    return [a[i].tolist(), str(a[i].dtype), (a[i] - a[pd.Series([0, 2])]).tolist(), np.where(a > 1, a, a).tolist(), np.sort(a).tolist(), str(np.sort(a).dtype), a[np.array([0, 1])].tolist()]
 def _u1():
     r, d = np.abs(np.diff(np.array([[1.0, 5.0], [4.0, 3.0], [0.0, 6.0]]), axis=0))
     return [r.tolist(), d.tolist()]
